@@ -5,6 +5,7 @@
   hold for every tree.
 -/
 import G9.UfsLogic
+import G9.UfsMeta
 namespace G9.C16
 open G9 G9.Ufs
 
@@ -170,5 +171,66 @@ def tstep : Nat → String → Option Nat
 example : ufsWalk tstep 0 ["a", "b", "x"] = .rwalk 2 none := rfl
 example : ufsWalk tstep 0 ["x"] = .enoent := rfl
 example : fwalk tstep 2 0 ["a", "b", "c"] = some 3 := by decide
+
+
+/-! ### type and permission bits of the reported stat and qid (model: G9.UfsMeta) -/
+section filemeta
+open G9.UfsMeta
+
+theorem perm_high (p : Nat) (hp : p < 512) (k : Nat) (hk : 9 ≤ k) : p.testBit k = false := by
+  apply Nat.testBit_lt_two_pow
+  exact Nat.lt_of_lt_of_le hp (by
+    have : 2 ^ 9 ≤ 2 ^ k := Nat.pow_le_pow_right (by decide) hk
+    simpa using this)
+
+/-- The mode word reported for a file: its low nine bits are the file's permission bits, the
+    directory bit is set exactly for directories, and — on a 9P2000.u connection only — the
+    symlink, device, named-pipe, socket, setuid and setgid bits exactly when the file has them;
+    nothing else is ever set. -/
+theorem mode_reports_the_file (m : FMode) (dotu : Bool) (hp : m.perm < 512) :
+    npmode m dotu % 512 = m.perm ∧
+    (npmode m dotu).testBit 31 = m.dir ∧
+    (npmode m dotu).testBit 25 = (dotu && m.symlink) ∧
+    (npmode m dotu).testBit 23 = (dotu && m.device) ∧
+    (npmode m dotu).testBit 21 = (dotu && m.pipe) ∧
+    (npmode m dotu).testBit 20 = (dotu && m.socket) ∧
+    (npmode m dotu).testBit 19 = (dotu && m.setuid) ∧
+    (npmode m dotu).testBit 18 = (dotu && m.setgid) := by
+  obtain ⟨perm, dir, sl, so, pi, de, su, sg⟩ := m
+  dsimp only at hp
+  have e1 : ∀ x : Nat, x % 512 = x &&& 511 := by
+    intro x
+    have := Nat.and_two_pow_sub_one_eq_mod x 9
+    simpa using this.symm
+  have hperm : perm &&& 511 = perm := by
+    rw [← e1]; exact Nat.mod_eq_of_lt hp
+  have b31 := perm_high perm hp 31 (by decide)
+  have b25 := perm_high perm hp 25 (by decide)
+  have b23 := perm_high perm hp 23 (by decide)
+  have b21 := perm_high perm hp 21 (by decide)
+  have b20 := perm_high perm hp 20 (by decide)
+  have b19 := perm_high perm hp 19 (by decide)
+  have b18 := perm_high perm hp 18 (by decide)
+  refine ⟨?_, ?_, ?_, ?_, ?_, ?_, ?_, ?_⟩
+  · rw [e1]
+    cases dir <;> cases dotu <;> cases sl <;> cases so <;> cases pi <;> cases de <;> cases su <;> cases sg <;>
+      simp [npmode, flag, DMDIR, DMSYMLINK, DMSOCKET, DMNAMEDPIPE, DMDEVICE, DMSETUID, DMSETGID,
+        Nat.and_or_distrib_right, hperm]
+  all_goals
+    cases dir <;> cases dotu <;> cases sl <;> cases so <;> cases pi <;> cases de <;> cases su <;> cases sg <;>
+      simp [npmode, flag, DMDIR, DMSYMLINK, DMSOCKET, DMNAMEDPIPE, DMDEVICE, DMSETUID, DMSETGID,
+        Nat.testBit_or, b31, b25, b23, b21, b20, b19, b18] <;> decide
+
+/-- the qid type: the directory bit exactly for directories, the symlink bit exactly for symbolic
+    links, nothing else -/
+theorem qid_type_reports_the_file (m : FMode) :
+    (qidType m).testBit 7 = m.dir ∧ (qidType m).testBit 1 = m.symlink ∧
+    qidType m = (if m.dir then 0x80 else 0) + (if m.symlink then 0x02 else 0) := by
+  obtain ⟨perm, dir, sl, so, pi, de, su, sg⟩ := m
+  cases dir <;> cases sl <;> simp [qidType, flag, QTDIR, QTSYMLINK] <;> decide
+
+example : npmode { perm := 0o755, dir := true, symlink := false, socket := false, pipe := false, device := false, setuid := false, setgid := false } false = 0x800001ed := by decide
+
+end filemeta
 
 end G9.C16
